@@ -149,3 +149,28 @@ def raceFree (as : List Access) : Bool :=
   as.all fun a => as.all fun b => !conflicting a b || ordered a b
 
 end Uhppote.Model.Driver
+
+namespace Uhppote.Model.Driver
+
+/-! ### the request between the driver call and the socket write (C01) -/
+
+/-- syntactic uses of a `[]byte` parameter that cannot change the bytes it holds nor make another
+    name for them: passing it to the socket write or the debug dump, `len`, reading one byte -/
+def readOnlyUses : List String :=
+  ["arg:codec.Dump", "arg:connection.Write", "arg:connection.WriteToUDP", "arg:len", "index-read"]
+
+/-- what the debug dump may do: format through `fmt` into a builder -/
+def dumpAllowed : List String := ["call:b.String", "call:fmt.Fprintf", "call:fmt.Fprintln", "call:len"]
+
+/-- the regenerated facts say that none of the four request methods (nor the dump they call before
+    the write) writes through the request slice or aliases it -/
+def requestUntouched (uses : List (String × List String)) (dump : List String) : Bool :=
+  uses.map (·.1) == ["Broadcast", "BroadcastTo", "SendUDP", "SendTCP"] &&
+  uses.all (fun u => u.2.all (· ∈ readOnlyUses)) && dump.all (· ∈ dumpAllowed)
+
+/-- the bytes the single socket write of a request method puts on the wire, as far as the model
+    knows them: the caller's bytes when the method never touches them, unknown otherwise -/
+def onWire (untouched : Bool) (request : List UInt8) : Option (List UInt8) :=
+  if untouched then some request else none
+
+end Uhppote.Model.Driver
